@@ -108,7 +108,7 @@ func errPart(w *vc.Writer, r *vc.Rand) {
 						var impl vc.Val
 						if written {
 							// nothing may be rendered after the first byte: the body is exactly the first record
-							if rec.Code == 200 && strings.Count(rec.Body.String(), "\n") == 1 {
+							if body := rec.Body.String(); rec.Code == 200 && strings.Count(body, "\n") == 1 && strings.HasSuffix(body, "\n") {
 								impl = vc.L{}
 							} else {
 								impl = vc.L{rec.Code, vc.L{1, false}}
